@@ -256,6 +256,12 @@ def apiExit (s : St) (t : Nat) (id : Nat) (err : Option String) : St :=
     let s1 := if c1.blocked then s else statCompleted s c1 t
     { s1 with ents := (id, { c1 with exited := true }) :: s1.ents }
 
+/-- `stat.ResetResourceNodeMap()` (a test utility, callable at any moment): the node map is emptied; the nodes it held stay
+    referenced by the contexts of the entries in flight (`ctx.StatNode`) but can never be looked up again — for every
+    observation that is the same as those contexts having no node.  The inbound node is not touched. -/
+def resetNodes (s : St) : St :=
+  { s with nodes := [], ents := s.ents.map fun ic => (ic.1, { ic.2 with hasNode := false }) }
+
 def step (fix : Bool) (s : St) (x : TOp) : St :=
   match x.2 with
   | .entry e => apiEntry fix s x.1 e
